@@ -23,13 +23,14 @@ ASSUMPTIONS = B.ASSUMPTIONS + ["stored densities are assumed strictly increasing
                                "value / position predicates and sortby do not multiply the paths (the predicates themselves are C04's subject)",
                                "'fresh dataset' = a new RamsesDataset on the same files executing only that call, in the same symbolic run"]
 BOUNDS = {"quick": {"alphabet": "full, part-only, mesh variable subset, value predicate, position predicate (triggers the Hilbert CPU pre-selection), "
-                                "level predicate, cpu_list=[1], sortby", "sequences": "all ordered pairs (64)", "output": "2-D, 2 CPUs, refined tree, particles"},
-          "thorough": {"sequences": "all ordered triples (512)"}}
+                                "level predicate, cpu_list=[1], sortby on the mesh, sortby on the sinks", "sequences": "all ordered pairs (81)",
+                    "output": "2-D, 2 CPUs, refined tree, particles, 2 sinks"},
+          "thorough": {"sequences": "all ordered triples (729)"}}
 FLOOR = {"quick": 1500, "thorough": 10000}
 SHADOW_EVERY = 4
 LIMITS = {"quick": {"max_paths": 64, "budget_s": 300}, "thorough": {"max_paths": 64, "budget_s": 600}}
 
-ALPHABET = ["full", "part", "vars", "value", "position", "level", "cpulist", "sortby"]
+ALPHABET = ["full", "part", "vars", "value", "position", "level", "cpulist", "sortby", "sinksort"]
 
 
 def configs(tier):
@@ -61,6 +62,8 @@ def call_kwargs(m, name, out, thr):
         return dict(cpu_list=[1])
     if name == "sortby":
         return dict(sortby={"mesh": "density"})
+    if name == "sinksort":
+        return dict(sortby={"sink": "msink"})
     raise ValueError(name)
 
 
@@ -99,7 +102,20 @@ def _body(m, cfg):
         thr = m.real("threshold")
         out.build(ghosts="zero")
         out.build_particles()
+        # two sinks, stored in DEcreasing mass order (a sort on msink changes the row order; no fork)
+        out.add_sinks(["id", "msink", "x", "y"], ["1", "m", "l", "l"], 2)
+        m.assume(m.gt(m.t(out.sink_vals[0][1]), m.t(out.sink_vals[1][1])))
         saved = LC.install_shims(out) if m.symbolic else None
+        from symx import install as _install
+        S = _install.mod("osyris.io.sink")
+        old_np = S.np
+        if m.symbolic:
+            class _NP:
+                def __getattr__(self_, k):
+                    return getattr(old_np, k)
+            stub = _NP()
+            stub.loadtxt = out.sink_loadtxt(np.loadtxt)
+            S.np = stub
         try:
             with LC.quiet():
                 ds = osyris.RamsesDataset(1, path=out.root)
@@ -129,6 +145,7 @@ def _body(m, cfg):
                         m.require(ok, f"meta['{key}'] matches the groups just loaded", key=f"meta-{key}:{tag}",
                                   info={"got": int(ds.meta[key]), "fresh": int(fresh.meta[key])})
         finally:
+            S.np = old_np
             if saved is not None:
                 LC.remove_shims(saved)
     finally:
